@@ -590,7 +590,7 @@ func c18Report(rt *rapid.T, rec *evi.Recorder, driver string, c, s hsSide, exp c
 	rec.Class("expect:" + exp.Kind)
 	cs := map[string]any{
 		"driver": driver, "client": c.String(), "server": s.String(),
-		"expected": fmt.Sprintf("%s %s", exp.Kind, verName(exp.Version)),
+		"expected":       fmt.Sprintf("%s %s", exp.Kind, verName(exp.Version)),
 		"client_outcome": co.String(), "server_outcome": so.String(),
 		"responder_wrote_on_handshake_stream": evi.Hex(serverWrote),
 	}
